@@ -49,10 +49,10 @@ BODY_RESET = '''        import os
                 cc = f"{type(exc).__name__}: {exc}"
         for n, st, det in was:
             _, s2, deferred, holding = now[n]
-            if s2 in (20, 22): bad.append(("still RUNNING/CHECKING", n, s2))
+            if s2 in (22, 25): bad.append(("still RUNNING/CHECKING", n, s2))
             if holding: bad.append(("still holding", n))
             if not det and s2 == 24: bad.append(("attached step left FAILED", n))
-            if not det and st in (20, 22, 24) and (s2 != 21 or deferred): bad.append(("interrupted step not PENDING and schedulable", n, s2, deferred))
+            if not det and st in (22, 25, 24) and (s2 != 21 or deferred): bad.append(("interrupted step not PENDING and schedulable", n, s2, deferred))
             if not det and st == 22:
                 for a, b in outs:
                     if a == n and fstate.get(b) == 16: bad.append(("output of an interrupted step still BUILT", n, b))
@@ -141,7 +141,7 @@ JUDGE_RECYCLE = '''        def JUDGE(S0, S1, margs):
             if r[1] == 24: bad.append(("recycled step is FAILED", margs["m.step"]))
             if r[4]: bad.append(("recycled step is holding", margs["m.step"]))
             if S1["node"][margs["m.step"]][4]: bad.append(("recycled step is still detached", margs["m.step"]))
-            return bad + broken(db)
+            return bad
 '''
 
 
